@@ -14,13 +14,13 @@ RULE = ("worlds with max_recompute in {None,1,2,3,7}, idle stretches, sessions f
         "calls the party scribbles over every object it was handed; non-trivial = >=1 timer-only invocation and >=1 "
         "mutation fault; distinct = per-period history signature")
 PROBES = ["timer_only_call", "mutation", "session_finished_early_hidden", "third_period_pilots", "resumed", "paired_run",
-          "arrival_this_period_seen", "departure_this_period_hidden", "infra_seen_after_reconfig", "custom_event_with_builtin"]
+          "arrival_this_period_seen", "departure_this_period_hidden", "infra_seen_after_reconfig", "custom_event_with_builtin", "mutate_then_crash"]
 FAULT_DIMENSION = ("party mutates handed SessionInfo / InfrastructureInfo / Constraint objects; scheduler crash + rerun; "
                    "operator changes a constraint limit between two periods (the scheduler must see the new, true limits)")
 ASSUMPTIONS = ["'handed' = argument of schedule(), results of active_sessions(), infrastructure_info(), get_constraints()",
                "truth for delivered energy/rates/pilots is the end-of-period tap of the previous period"]
 
-PROFILE = world.profile(reconfig=0.25, custom_events=0.25, faults={"mutate": 1.2, "crash": 0.3}, resume_modes=["rerun"],
+PROFILE = world.profile(reconfig=0.25, custom_events=0.25, faults={"mutate": 1.2, "crash": 0.3, "mutate_crash": 0.4}, resume_modes=["rerun"],
                         max_recompute=[None, 1, 2, 3, 7], horizon=(6, 36), chain_fill=(0.2, 0.8), b2b=0.3,
                         demand=(0.02, 1.2), party={"scripted": 4, "uncontrolled": 2, "greedy": 3, "rr": 1},
                         evse_kinds={"cont": 4, "dead": 2, "finite": 3})
@@ -186,14 +186,18 @@ def check(sc):
                     out.add("C05/interface_station_query", "t=%d station %s %s" % (t, s, ps))
     # (c) isolation
     for c in tr.calls:
-        if c.get("fault") == "mutate" and "digest_before_mutation" in c:
+        if c.get("fault") in ("mutate", "mutate_crash") and "digest_before_mutation" in c:
             if c["digest_before_mutation"] != c["digest_after_mutation"]:
                 out.add("C05/mutation_changed_state", "t=%d mutating the handed objects changed simulator/network state" % c["t"])
-    if tr.fault_counts.get("mutate") and not out.viol:
+    out.probe("mutate_then_crash", tr.fault_counts.get("mutate_crash", 0))
+    if (tr.fault_counts.get("mutate") or tr.fault_counts.get("mutate_crash")) and not out.viol:
         sc2 = copy.deepcopy(sc)
         for f in sc2["faults"]:
             if f["kind"] == "mutate":
                 f["kind"] = "noop"
+            elif f["kind"] == "mutate_crash":
+                f["kind"] = "crash"
+                f["when"] = "after"
         tr2 = driver.run_world(sc2, observe=0, snapshot=False)
         out.probe("paired_run")
         same = (type(tr2.exc) is type(tr.exc)) and tr2.sim.iteration == tr.sim.iteration and \
